@@ -264,7 +264,8 @@ impl CelsData<RawPixels> {
             num_frames,
         };
         // Mapping from CelId -> bool. True if the cel can be used as a target
-        // for a linked cel. That means it must exist, and it must be a raw cel.
+        // for a linked cel. That means it must exist, and it must hold data of
+        // its own (an image or a tilemap), i.e., not be a linked cel itself.
         // We copy it out here, so we can consume the actual data in the
         // validation/transformation step.
         let mut is_linkable_cel: Vec<bool> = Vec::with_capacity(num_frames as usize * num_layers);
@@ -274,7 +275,7 @@ impl CelsData<RawPixels> {
                     frame: frame as u16,
                     layer: layer as u16,
                 };
-                is_linkable_cel.push(self.cel(cel_id).map_or(false, |c| c.content.is_raw()));
+                is_linkable_cel.push(self.cel(cel_id).map_or(false, |c| !c.content.is_linked()));
             }
         }
         let validate_ref = |id: CelId| {
@@ -392,8 +393,8 @@ pub(crate) enum CelContent<P> {
 }
 
 impl<P> CelContent<P> {
-    fn is_raw(&self) -> bool {
-        matches!(self, CelContent::Raw(_))
+    fn is_linked(&self) -> bool {
+        matches!(self, CelContent::Linked(_))
     }
 }
 
